@@ -102,7 +102,7 @@ def _depth(s):
 
 def run(module, cfg, workers=16, cwd=None, env=None, dump=None, dump_dot=None,
         simulate=None, depth=None, seed=None, coverage=True, timeout=1800,
-        deadlock=None, extra=(), jvm=(), heap="8g", dfs=False, continue_=False):
+        deadlock=None, extra=(), jvm=(), heap="4g", dfs=False, continue_=False):
     """module: path to root .tla (or bare module name searched in spec dirs); cfg: path to .cfg"""
     root = module if os.path.sep in module else find_module(module)
     if cfg is not None and os.path.sep not in cfg:
